@@ -534,7 +534,9 @@ func coalesce(r YangRange) YangRange {
 		// r1 starts inside of cr[i]
 		// r1.Min cr[i].Max+1
 		// r1 is beyond cr[i]
-		if cr[i].Max.addQuantum(1).Less(r1.Min) {
+		// cr[i].Max+1 wraps around when cr[i].Max is the largest
+		// representable number; nothing can start after that.
+		if next := cr[i].Max.addQuantum(1); cr[i].Max.Less(next) && next.Less(r1.Min) {
 			// r1 starts after cr[i], this is a new range
 			i++
 			cr[i] = r1
